@@ -89,7 +89,10 @@ def fresh_tid(draw, used, predefined=False):
         if t not in used:
             used.add(t)
             return t
-    t = max(used | {0x100}) + 1
+    # (reached when the draws keep colliding, e.g. while a failing case is being shrunk) the first free id of the SAME range: an id from
+    # the other range would contradict the type's `predefined` flag - the member-visibility rules of the two ranges differ
+    pool = list(range(0x001, 0x100)) + list(range(0xF00, 0x1000)) if predefined else range(0x100, 0xF00)
+    t = next(x for x in pool if x not in used and x != 0xFCE)
     used.add(t)
     return t
 
